@@ -5,6 +5,9 @@ import PrysmVerif.Lemmas.C07Spec
 import PrysmVerif.Lemmas.C07Jacobi
 import PrysmVerif.Lemmas.C07Hermite
 import PrysmVerif.Lemmas.C07Explicit
+import PrysmVerif.Lemmas.C07Q2d
+import PrysmVerif.Lemmas.C07Ortho
+import PrysmVerif.Lemmas.C07QbfsLow
 import Mathlib.MeasureTheory.Integral.IntervalIntegral.Basic
 import Mathlib.Analysis.SpecialFunctions.Pow.Real
 import Mathlib.Analysis.SpecialFunctions.Sqrt
@@ -20,7 +23,11 @@ Layout.
    value at 1, reflection, Chebyshev `T U V W` (Mathlib's `T`, `U`), Bonnet, Mathlib's `hermite` and `dickson`,
    DLMF's Laguerre recurrence, the Zernike / XY / Hopkins / Qcon definitions, and DLMF 18.5.7's explicit
    hypergeometric sum for Jacobi — for ALL orders and points.
-3. *Not proved*: orthogonality for all orders.  The full statements are kept as `…_full : Prop`;
+   2D-Q (Forbes): `abc_q2d`, `gamma`, `F_q2d`, `G_q2d`, `f_q2d`, `g_q2d` and the whole body of `Q2d` are translated and proved equal
+   to the hand model (a transcription of Forbes' appendix A) for every `n, m`.
+3. *Orthogonality*: PROVED for all orders for the four Chebyshev families under their textbook weights
+   (`cheby1..4_orthogonal`, `jacobi_orthogonal_chebyshev_params`: the instance `(α,β) ∈ {±½}²` of Jacobi orthogonality).
+   NOT proved for general `(α,β)`, Zernike, Qbfs / 2D-Q slopes: the full statements are kept as `…_full : Prop`;
    the harness checks them numerically (Gauss quadrature), labelled as testing.
 
 Scalars: any field `K` of characteristic zero (ordered where positivity of a denominator is needed); the
@@ -118,43 +125,11 @@ theorem qbfsPQ_succ (sqrt : K → K) (rho : K) (n : ℕ) :
       ((qbfsPQ sqrt rho n).2.1, (2 - 4 * rho) * (qbfsPQ sqrt rho n).2.1 - (qbfsPQ sqrt rho n).1,
        (qbfsPQ sqrt rho n).2.2.2,
        ((2 - 4 * rho) * (qbfsPQ sqrt rho n).2.1 - (qbfsPQ sqrt rho n).1 - qbfsG sqrt (n+1) * (qbfsPQ sqrt rho n).2.2.2
-          - qbfsH n (qbfsF sqrt n) * (qbfsPQ sqrt rho n).2.2.1) * (1 / qbfsF sqrt (n+2))) := by
-  simp [qbfsPQ]
+          - qbfsH n (qbfsF sqrt n) * (qbfsPQ sqrt rho n).2.2.1) * (1 / qbfsF sqrt (n+2))) := C07L.qbfsPQ_step sqrt rho n
 
-/-- the translated body of `Qbfs` (loop included) computes the model's `qbfs sqrt n x`, every `n`, every `sqrt` -/
-theorem gen_qbfs (sqrt : K → K) (n : ℕ) (x : K) : Generated.C07.qbfs sqrt (n : ℤ) x = qbfs sqrt n x := by
-  first
-  | (show Model.C07.qbfs _ _ _ = _; simp)
-  | (
-      match n with
-      | 0 => simp [Generated.C07.qbfs, qbfs, qbfsPQ, pow_two]
-      | 1 => simp [Generated.C07.qbfs, qbfs, qbfsPQ, pow_two]
-      | n+2 =>
-        have h0 : ¬ (((n + 2 : ℕ) : ℤ) = 0) := by omega
-        have h1 : ¬ (((n + 2 : ℕ) : ℤ) = 1) := by omega
-        unfold Generated.C07.qbfs
-        simp only [if_neg h0, if_neg h1, ofInt_eq, npow_eq, Int.cast_one, Int.cast_ofNat, Int.cast_zero]
-        rw [show ((n+2:ℕ):ℤ) + 1 = 2 + ((n+1:ℕ):ℤ) by push_cast; ring]
-        rw [show qbfs sqrt (n+2) x = (qbfsPQ sqrt (x*x) (n+1)).2.2.2 * (x*x*(1-x*x)) from by
-          simp [qbfs, qbfsPQ_succ]]
-        congr 1
-        · refine (forRange_induct (fun k s =>
-              Generated.C07.qbfs_st_Pnm2 s = (qbfsPQ sqrt (x*x) k).1 ∧ Generated.C07.qbfs_st_Pnm1 s = (qbfsPQ sqrt (x*x) k).2.1
-              ∧ Generated.C07.qbfs_st_Qnm2 s = (qbfsPQ sqrt (x*x) k).2.2.1 ∧ Generated.C07.qbfs_st_Qnm1 s = (qbfsPQ sqrt (x*x) k).2.2.2
-              ∧ (1 ≤ k → Generated.C07.qbfs_st_Qn s = (qbfsPQ sqrt (x*x) k).2.2.2)) 2 _ _ ?_ ?_ (n+1)).2.2.2.2 (by omega)
-          · simp [qbfsPQ, pow_two]
-          · rintro k s ⟨hs1, hs2, hs3, hs4, -⟩
-            dsimp only [Generated.C07.qbfs_st_Pn, Generated.C07.qbfs_st_Pnm1, Generated.C07.qbfs_st_Pnm2, Generated.C07.qbfs_st_Qn, Generated.C07.qbfs_st_Qnm1, Generated.C07.qbfs_st_Qnm2] at hs1 hs2 hs3 hs4 ⊢
-            have eg : qbfsGi sqrt (2 + (k:ℤ) - 1) = qbfsG sqrt (k+1) := by
-              simp only [qbfsGi]; congr 1; omega
-            have eh : qbfsHi sqrt (2 + (k:ℤ) - 2) = qbfsH k (qbfsF sqrt k) := by
-              have : (2 + (k:ℤ) - 2).toNat = k := by omega
-              simp only [qbfsHi, this]
-            have ef : qbfsFi sqrt (2 + (k:ℤ)) = qbfsF sqrt (k+2) := by
-              simp only [qbfsFi]; congr 1; omega
-            simp only [eg, eh, ef, hs1, hs2, hs3, hs4, qbfsPQ_succ, pow_two]
-            exact ⟨trivial, trivial, trivial, trivial, fun _ => trivial⟩
-        · ring)
+/-- the translated body of `Qbfs` (loop included) computes the model's `qbfs sqrt n x`, every `n`, every `sqrt` (proof in `Lemmas/C07Gen.lean`,
+    shared with `Props/C08.lean`) -/
+theorem gen_qbfs (sqrt : K → K) (n : ℕ) (x : K) : Generated.C07.qbfs sqrt (n : ℤ) x = qbfs sqrt n x := C07L.gen_qbfs sqrt n x
 
 /-- `cheby1..4`, `legendre`, `Qcon` as written in the source (whole bodies, calling the translated `jacobi`) compute the model -/
 theorem gen_cheby_legendre_qcon (n : ℕ) (x : K) :
@@ -209,6 +184,41 @@ theorem gen_hopkins (sinf cosf : K → K) (a : ℤ) (b c : ℕ) (r t H : K) :
   · first
     | (simp [Generated.C07.hopkins, hopkins, h, eabs]; done)
     | simp [Generated.C07.hopkins, h]
+
+/-! ### 2D-Q (Forbes 2012, appendix A); proofs in `Lemmas/C07Q2d.lean` -/
+
+/-- translated `abc_q2d(n, m)` is the hand transcription of Forbes (A.3), every `n m` (read as scalars) -/
+theorem gen_abc_q2d (n m : K) : Generated.C07.abcQ2d n m = q2dAbcK n m := C07L.gen_abc_q2d n m
+
+/-- the body of `prysm.mathops.gamma` (recursive calls read as the model's function) returns the model's `γ_n^m` for every `n ≥ 1`, `m ≥ 2`
+    (the arguments for which the Python recursion terminates) -/
+theorem gen_q2d_gamma (n m : ℕ) (hn : 1 ≤ n) (hm : 2 ≤ m) : Generated.C07.gammaBody (K := K) (n:ℤ) (m:ℤ) = q2dGamma n m :=
+  C07L.gen_q2d_gamma n m hn hm
+
+/-- translated `G_q2d` (A.15) and `F_q2d` (A.13) — every branch, `factorial`, `factorial2`, `gamma` read as the model's functions —
+    are the model's `G_n^m`, `F_n^m` for every `n` and every `m ≥ 1` -/
+theorem gen_q2d_FG (n m : ℕ) (hm : 1 ≤ m) :
+    Generated.C07.q2dGBody (K := K) (n:ℤ) (m:ℤ) = q2dG n m ∧ Generated.C07.q2dFBody (K := K) (n:ℤ) (m:ℤ) = q2dF n m :=
+  ⟨C07L.gen_q2d_G n m hm, C07L.gen_q2d_F n m hm⟩
+
+/-- the bodies of `g_q2d`, `f_q2d` (A.18; calls read as the model's functions) return the model's `g_n^m`, `f_n^m`, every `n m`, any `sqrt` -/
+theorem gen_q2d_fg (sqrt : K → K) (n m : ℕ) :
+    Generated.C07.q2dgBody sqrt (n:ℤ) (m:ℤ) = q2dg sqrt n m ∧ Generated.C07.q2dfBody sqrt (n:ℤ) (m:ℤ) = q2df sqrt n m :=
+  C07L.gen_q2d_fg sqrt n m
+
+/-- **the whole body of `Q2d`** (delegation to `Qbfs` for `m = 0`, `sin` for `m < 0` / `cos` for `m > 0` with `|m|`, the seeds `P_0, P_1`,
+    the special `P_2, P_3, Q_2, Q_3` and the loop from 4 for `|m| = 1`, the loop from 2 otherwise, `abc_q2d(nn−1, m)`, `g_q2d(nn−1, m)`,
+    `f_q2d(nn, m)`) computes the model's `q2d` for EVERY radial order `n`, EVERY azimuthal order `m`, all `r, t`, any `sin`, `cos`, `sqrt` -/
+theorem gen_q2d (sinf cosf sqrt : K → K) (n : ℕ) (m : ℤ) (r t : K) :
+    Generated.C07.q2d sinf cosf sqrt (n:ℤ) m r t
+      = q2d sqrt n m r (if m < 0 then sinf ((m.natAbs:K) * t) else cosf ((m.natAbs:K) * t)) :=
+  C07L.gen_q2d_aux sinf cosf sqrt (gen_qbfs sqrt) n m r t
+
+/-- the `m = 1` correction of the 2D-Q sum in `compute_z_zprime_Q2d` (Forbes B.7), read off the source: under `m == 1 and N > 2` — i.e. as
+    soon as `α_3` exists — `S −= 2/5·alphas[0][3]` and `S' −= 2/5·alphas[1][3]`, for the cosine and for the sine coefficients alike
+    (rows: `m`, threshold, numerator, denominator, derivative index, `α` index) -/
+theorem q2d_sum_m1_correction :
+    Generated.C07.q2dSumM1Correction = [(1, 2, 2, 5, 0, 3), (1, 2, 2, 5, 1, 3), (1, 2, 2, 5, 0, 3), (1, 2, 2, 5, 1, 3)] := by decide
 end translated
 
 /-! ## 2. the property -/
@@ -387,14 +397,95 @@ theorem qcon_def (n : ℕ) (x : K) : Generated.C07.qcon (n:ℤ) x = x ^ 4 * (dlm
   rw [(gen_cheby_legendre_qcon n x).2.2.2.2.2, ← jacobi_is_dlmf, gen_jacobi]
   simp [qcon, pow_two]; ring
 
+
+/-- **2D-Q on the source text**: `Q2d(n, 0, r, t) = Qbfs(n, r)`; for `m ≠ 0`, `Q2d(n, m, r, t) = Q_n^{|m|}(r²) · r^{|m|} · az` with
+    `az = cos(|m| t)` for `m > 0`, `sin(|m| t)` for `m < 0`, where `Q_n^m` is Forbes' radial polynomial of the model
+    (`Q_0 = 1/(2f_0)`, `Q_n = (P_n − g_{n−1} Q_{n−1}) / f_n`) — every `n`, every `m`, all `r, t`, any `sin`, `cos`, `sqrt` -/
+theorem q2d_def (sinf cosf sqrt : K → K) (n : ℕ) (m : ℤ) (r t : K) :
+    Generated.C07.q2d sinf cosf sqrt (n:ℤ) m r t
+      = if m = 0 then Generated.C07.qbfs sqrt (n:ℤ) r
+        else q2dRadial sqrt n m.natAbs (r ^ 2) * r ^ m.natAbs
+              * (if m < 0 then sinf ((m.natAbs:K) * t) else cosf ((m.natAbs:K) * t)) := by
+  rw [gen_q2d]
+  by_cases h : m = 0
+  · subst h; simp [q2d, gen_qbfs]
+  · simp [q2d, h, pow_two, mul_assoc]
+
+/-- Forbes (A.18) read backwards: for any `sqrt` with `sqrt(y)² = y`, the model's `f, g` satisfy the Cholesky relations
+    `f_0² = F_0`, `f_{n+1}² + g_n² = F_{n+1}`, and `f_n g_n = G_n` wherever `f_n ≠ 0` — for every `n`, `m` -/
+theorem q2d_cholesky_relations (sqrt : K → K) (hs : ∀ y, sqrt y * sqrt y = y) (n m : ℕ) :
+    q2df sqrt 0 m * q2df sqrt 0 m = q2dF 0 m
+    ∧ q2df sqrt (n+1) m * q2df sqrt (n+1) m + q2dg sqrt n m * q2dg sqrt n m = q2dF (n+1) m
+    ∧ (q2df sqrt n m ≠ 0 → q2df sqrt n m * q2dg sqrt n m = q2dG n m) := by
+  refine ⟨?_, ?_, ?_⟩
+  · rw [C07L.q2df_zero, hs]
+  · rw [C07L.q2df_succ, hs]; ring
+  · intro hf; rw [C07L.q2dg_eq]; field_simp
+
 end property
+
+/-- **Forbes' closed forms, LOW ORDERS ONLY (`n = 0, 1, 2`; a bounded statement, labelled as such)**: the source's `Qbfs` with the real square
+    root is `u²(1−u²)·Q_n(u²)` with `Q_0 = 1`, `Q_1 = (13 − 16x)/√19`, `Q_2 = √(2/95)·(29 − 4x(25 − 19x))` (Forbes 2007, eq. 2.8) for every `u` -/
+theorem qbfs_closed_forms_low_orders (u : ℝ) :
+    Generated.C07.qbfs Real.sqrt 0 u = u ^ 2 * (1 - u ^ 2)
+    ∧ Generated.C07.qbfs Real.sqrt 1 u = u ^ 2 * (1 - u ^ 2) * ((13 - 16 * u ^ 2) / Real.sqrt 19)
+    ∧ Generated.C07.qbfs Real.sqrt 2 u = u ^ 2 * (1 - u ^ 2) * (Real.sqrt (2 / 95) * (29 - 4 * u ^ 2 * (25 - 19 * u ^ 2))) := by
+  have h := C07L.qbfs_closed_low u
+  have e0 := gen_qbfs Real.sqrt 0 u
+  have e1 := gen_qbfs Real.sqrt 1 u
+  have e2 := gen_qbfs Real.sqrt 2 u
+  norm_cast at e0 e1 e2
+  rw [e0, e1, e2]
+  exact h
+
+/-! ## 2b. orthogonality PROVED for all orders: the four Chebyshev families (`Lemmas/C07Ortho.lean`) -/
+section chebyshev_orthogonality
+open MeasureTheory
+
+/-- `cheby1` of the source is orthogonal under `(1−x²)^{-1/2}` on `[−1,1]`: `∫ T_n T_m w = 0` (`n ≠ m`), `π` (`n = m = 0`),
+    `π/2` (`n = m ≥ 1`) — ALL orders -/
+theorem cheby1_orthogonal (n m : ℕ) :
+    ∫ x in (-1:ℝ)..1, Generated.C07.cheby1 (n:ℤ) x * Generated.C07.cheby1 (m:ℤ) x * (Real.sqrt (1 - x ^ 2))⁻¹
+      = if n = m then (if n = 0 then Real.pi else Real.pi / 2) else 0 := by
+  simp only [cheby1_eq_T]; exact C07L.chebT_orthogonal n m
+
+/-- `cheby2` of the source is orthogonal under `(1−x²)^{1/2}`: `∫ U_n U_m w = (π/2) δ_{nm}` — ALL orders -/
+theorem cheby2_orthogonal (n m : ℕ) :
+    ∫ x in (-1:ℝ)..1, Generated.C07.cheby2 (n:ℤ) x * Generated.C07.cheby2 (m:ℤ) x * Real.sqrt (1 - x ^ 2)
+      = if n = m then Real.pi / 2 else 0 := by
+  simp only [cheby2_eq_U]; exact C07L.chebU_orthogonal n m
+
+/-- `cheby3` of the source is orthogonal under `((1+x)/(1−x))^{1/2} = (1+x)(1−x²)^{-1/2}`: `∫ V_n V_m w = π δ_{nm}` — ALL orders -/
+theorem cheby3_orthogonal (n m : ℕ) :
+    ∫ x in (-1:ℝ)..1, Generated.C07.cheby3 (n:ℤ) x * Generated.C07.cheby3 (m:ℤ) x * ((1 + x) * (Real.sqrt (1 - x ^ 2))⁻¹)
+      = if n = m then Real.pi else 0 := by
+  simp only [cheby3_eq_V]; exact C07L.chebV_orthogonal n m
+
+/-- `cheby4` of the source is orthogonal under `((1−x)/(1+x))^{1/2} = (1−x)(1−x²)^{-1/2}`: `∫ W_n W_m w = π δ_{nm}` — ALL orders -/
+theorem cheby4_orthogonal (n m : ℕ) :
+    ∫ x in (-1:ℝ)..1, Generated.C07.cheby4 (n:ℤ) x * Generated.C07.cheby4 (m:ℤ) x * ((1 - x) * (Real.sqrt (1 - x ^ 2))⁻¹)
+      = if n = m then Real.pi else 0 := by
+  simp only [cheby4_eq_W]; exact C07L.chebW_orthogonal n m
+
+/-- **PARTIAL result towards `jacobi_orthogonal_full`** (clearly: only the four parameter pairs `(α, β) ∈ {±½}²`, but ALL orders): the
+    source's `jacobi` polynomials of different degree are orthogonal under the weight the library reports
+    (`prysm.polynomials.jacobi.weight`, real powers) -/
+theorem jacobi_orthogonal_chebyshev_params (n m : ℕ) (hnm : n ≠ m) (a b : ℝ)
+    (ha : a = 1 / 2 ∨ a = -1 / 2) (hb : b = 1 / 2 ∨ b = -1 / 2) :
+    ∫ x in (-1:ℝ)..1, Generated.C07.weight (fun u v => u ^ v) a b x * Generated.C07.jacobi (n:ℤ) a b x * Generated.C07.jacobi (m:ℤ) a b x
+      = 0 := by
+  simp only [weight_def, gen_jacobi]
+  exact C07L.jacobi_orthogonal_half n m hnm a b ha hb
+
+end chebyshev_orthogonality
 
 /-! ## 3. not proved: orthogonality for all orders (statements kept; checked numerically by the harness) -/
 section not_proved
 open MeasureTheory
 open scoped C07L
 
-/-- Jacobi polynomials of different degree are orthogonal under `(1−x)^α (1+x)^β` on `[−1,1]` — NOT PROVED -/
+/-- Jacobi polynomials of different degree are orthogonal under `(1−x)^α (1+x)^β` on `[−1,1]` — NOT PROVED in general
+    (proved for `(α, β) ∈ {±½}²`: `jacobi_orthogonal_chebyshev_params`) -/
 def jacobi_orthogonal_full : Prop :=
   ∀ (n m : ℕ) (a b : ℝ), -1 < a → -1 < b → n ≠ m →
     ∫ x in (-1:ℝ)..1, Generated.C07.weight (fun u v => u ^ v) a b x * jacobi n a b x * jacobi m a b x = 0
@@ -414,6 +505,17 @@ def qbfs_slope_orthonormal_full : Prop :=
 
 end not_proved
 
+/-- the cosine half and the sine half of `compute_z_zprime_Q2d` are the same code up to `a ↔ b` (read off the source: the
+    `if Na >= 0:` block with every identifier renamed is the `if Nb >= 0:` block — in particular the guard of the `m == 1`
+    correction `−2/5·alphas[·][3]` is the same expression in both) -/
+theorem q2d_sum_branches_symmetric : Generated.C07.q2dSumBranchesSymmetric = true := by decide
+
+/-- read off the source of every `prysm/polynomials/*.py`: no `id(…)`, no `is` between two non-constant expressions, no `global`, and no
+    function stores anything that depends on its parameters into state that outlives the call (module-level container, function attribute,
+    mutable default) except as a table entry whose key mentions, by value, every parameter the entry depends on — so the value of a
+    polynomial cannot depend on WHICH array object carried the coordinates or on what that object held during an earlier call -/
+theorem polynomials_keep_no_state_between_calls : Generated.C07.polynomialsKeepNoStateBetweenCalls = true := by decide
+
 /-! ## non-vacuity -/
 example : Generated.C07.weight (fun u v : ℝ => u ^ v) 0 4 (1/2) = (1 - 1/2) ^ (0:ℝ) * (1 + 1/2) ^ (4:ℝ) := by
   rw [C07.weight_def]
@@ -422,5 +524,7 @@ example : (-1 : ℚ) < -1/2 ∧ (-1 : ℚ) < 2.3 := by norm_num
 example : Generated.C07.jacobi (K := ℚ) 3 (1/2) (-9/10) (1/3) = Model.C07.jacobi 3 (1/2) (-9/10) (1/3) :=
   gen_jacobi 3 _ _ _
 example : (2 : ℤ).natAbs ≤ 6 := by decide
+example : ∀ y : ℝ, 0 ≤ y → Real.sqrt y * Real.sqrt y = y := fun y hy => Real.mul_self_sqrt hy
+example : ((1:ℝ) / 2 = 1 / 2 ∨ (1:ℝ) / 2 = -1 / 2) ∧ (3 : ℕ) ≠ 5 := ⟨Or.inl rfl, by decide⟩
 
 end C07
